@@ -1039,8 +1039,11 @@ class ExperimentTopology(Topology):
         if not self.graph_model.node_exists(node_id=i.node_id, label=ABCPropertyGraph.CLASS_ConnectionPoint):
             # already removed together with its service, or as the peer of a pruned interface
             return
-        self._disconnect_from_services([Interface(name=i.name, node_id=i.node_id, topo=self)])
-        self.graph_model.remove_cp_and_links(node_id=i.node_id)
+        fresh = Interface(name=i.name, node_id=i.node_id, topo=self)
+        self._disconnect_from_services([fresh])
+        # a sub-interface does not own the port above it: the port stays, even when this was its only child
+        self.graph_model.remove_cp_and_links(node_id=i.node_id,
+                                             delete_parent=fresh.type != InterfaceType.SubInterface)
 
     def prune(self, reservation_state):
         """
@@ -1072,10 +1075,12 @@ class ExperimentTopology(Topology):
                             nsl.get_reservation_info().reservation_state == reservation_state:
                         nss.add(ns)
                     for i in ns.interface_list:
-                        isl = i.get_sliver()
-                        if isl.get_reservation_info() and \
-                                isl.get_reservation_info().reservation_state == reservation_state:
-                            interfaces.add(i)
+                        # the port and its sub-interfaces (they carry reservation info of their own)
+                        for ii in (i,) + tuple(i.interface_list):
+                            isl = ii.get_sliver()
+                            if isl.get_reservation_info() and \
+                                    isl.get_reservation_info().reservation_state == reservation_state:
+                                interfaces.add(ii)
 
         # top level network services only, we visited others already
         for ns in self.network_services.values():
@@ -1085,10 +1090,11 @@ class ExperimentTopology(Topology):
                         nsl.get_reservation_info().reservation_state == reservation_state:
                     nss.add(ns)
                 for i in ns.interface_list:
-                    isl = i.get_sliver()
-                    if isl.get_reservation_info() and \
-                            isl.get_reservation_info().reservation_state == reservation_state:
-                        interfaces.add(i)
+                    for ii in (i,) + tuple(i.interface_list):
+                        isl = ii.get_sliver()
+                        if isl.get_reservation_info() and \
+                                isl.get_reservation_info().reservation_state == reservation_state:
+                            interfaces.add(ii)
 
         # all deletes are supposed to be idempotent
         for n in nodes:
